@@ -188,4 +188,36 @@ theorem C16_combine_names_nodup (a b c : Address) (ha : a.names.Nodup) (hb : b.n
 /-- a shared name is refused -/
 example : (Address.combine ⟨["x", "x0"], [2, 1]⟩ ⟨["x0", "x00"], [2, 1]⟩).toOption = none := by decide
 
+/-- **Row assignment of a time series is refused** when the index is outside `[-len, len)` or when the assigned collection does not
+have the width of the series (before the repair of D42 an index of −1 or `len` wrote nothing and returned normally, and a size-one
+collection was broadcast over the row) -/
+theorem C16_tset_refuses (α) (h : Heap α) (tid vid : Nat) (key : Int) (t : TVObj) (v : VarsObj α) (a : Address)
+    (ht : h.getTV tid = .ok t) (hv : h.getVars vid = .ok v) (ha : h.getAddr t.aid = .ok a)
+    (hbad : key ≥ (t.len : Int) ∨ key < -(t.len : Int) ∨ v.arr.length ≠ h.tvWidth t a) :
+    ∃ e, h.tvSetRow tid key vid = .error e := by
+  unfold tvSetRow
+  simp only [ht, hv, bind, Except.bind]
+  by_cases hk : key ≥ (t.len : Int) ∨ key < -(t.len : Int)
+  · simp [hk]
+  · simp only [hk, if_false, ha]
+    have hw : v.arr.length ≠ h.tvWidth t a := by
+      rcases hbad with h1 | h1 | h1
+      · exact absurd (Or.inl h1) hk
+      · exact absurd (Or.inr h1) hk
+      · exact h1
+    simp [hw]
+
+/-- and when it succeeds the index was in range and the widths agree -/
+theorem C16_tset_ok (α) (h h' : Heap α) (tid vid : Nat) (key : Int) (t : TVObj) (v : VarsObj α) (a : Address)
+    (ht : h.getTV tid = .ok t) (hv : h.getVars vid = .ok v) (ha : h.getAddr t.aid = .ok a)
+    (hok : h.tvSetRow tid key vid = .ok h') :
+    -(t.len : Int) ≤ key ∧ key < (t.len : Int) ∧ v.arr.length = h.tvWidth t a := by
+  by_cases h1 : key ≥ (t.len : Int)
+  · obtain ⟨e, he⟩ := C16_tset_refuses α h tid vid key t v a ht hv ha (Or.inl h1); rw [he] at hok; cases hok
+  by_cases h2 : key < -(t.len : Int)
+  · obtain ⟨e, he⟩ := C16_tset_refuses α h tid vid key t v a ht hv ha (Or.inr (Or.inl h2)); rw [he] at hok; cases hok
+  by_cases h3 : v.arr.length = h.tvWidth t a
+  · exact ⟨by omega, by omega, h3⟩
+  · obtain ⟨e, he⟩ := C16_tset_refuses α h tid vid key t v a ht hv ha (Or.inr (Or.inr h3)); rw [he] at hok; cases hok
+
 end Solverz
